@@ -12,7 +12,6 @@
               (Link.model_run_reachable); the scheduler is a heuristic, completeness is not claimed. *)
 From God Require Import Base.Prelude.
 From God Require Export C07.Model.
-From GodGen Require C07_Gen.
 
 Inductive ev :=
 | ESent (i : nat) | EGPanic (p : nat)
@@ -50,12 +49,17 @@ Record case := mkcase {
 
 Definition nitems (c : case) : nat := List.length (c_items c).
 
+(* the statement's own numbers, as literals (NOT taken from the regenerated module: a changed constant in the Go
+   source must not change what spec_ok demands; Link.v proves the regenerated constants equal these) *)
+Definition min_workers : Z := 1.        (* minWorkers, mapreduce.go:13 *)
+Definition default_workers : Z := 16.   (* defaultWorkers, mapreduce.go:14 *)
+
 (* WithWorkers :156-164, newOptions :322-327, Finish/FinishVoid :79,:95 *)
 Definition eff_workers (c : case) : nat :=
   match c_fn c with
-  | 4 | 5 => Nat.max (nitems c) (Z.to_nat C07_Gen.minWorkers)
-  | _ => if c_noopt c then Z.to_nat C07_Gen.defaultWorkers
-         else if (c_workers c <? C07_Gen.minWorkers)%Z then Z.to_nat C07_Gen.minWorkers else Z.to_nat (c_workers c)
+  | 4 | 5 => Nat.max (nitems c) (Z.to_nat min_workers)
+  | _ => if c_noopt c then Z.to_nat default_workers
+         else if (c_workers c <? min_workers)%Z then Z.to_nat min_workers else Z.to_nat (c_workers c)
   end.
 
 Definition val_eqb (a b : val) : bool := Nat.eqb (fst a) (fst b) && Nat.eqb (snd a) (snd b).
